@@ -32,6 +32,30 @@ P = {
  "C19": (True, "exploration", "property-based testing: CountedInput vs slice position / logging base input; saturation via cfg-guarded hook",
    "count() against the wrapped slice's consumed length after success and failure for generated strings of every decodable type, against a logging base input for every wrapper stack containing CountedInput, and against a saturating model near u64::MAX through the guarded constructor.",
    "The hook only sets the initial counter value.", "§6 C19"),
+ "C06": (True, "exploration", "stateful property-based testing: operation histories interpreted against structure and model, invariant after every step",
+   "Generated construction histories for VecDeque (biased to wrap the ring; all primitive element types), Vec/String capacity, BTreeMap/BTreeSet orders, LinkedList, BinaryHeap, bit-slices at every offset 0..=70 for all store/order pairs, and holder transitions; the encoding must equal the reference encoding of the logical content, a fresh copy's encoding and a second encoding after every step.",
+   "Reference encoder self-tested; history length bounded (<= 44 ops).", "§6 C06"),
+ "C09": (True, "exploration", "property-based testing with an allocator monitor in a crash-recovering worker: hostile count injection at every nesting position",
+   "Hostile counts (2^32-1 ... count+1) injected at generated nesting positions of valid encodings, followed by 0..64 KiB payload, over slice / unknown-length / shared-buffer inputs; a per-thread counting global allocator bounds peak live bytes and the largest request by a linear function of the input length plus 256 KiB per nesting level; refused requests (> 2 GiB) kill the worker and are recovered by the parent.",
+   "Bound constants calibrated on the unchanged tree (max observed ratio recorded in evidence); zero-width-encoded sized elements excluded (counted).", "§6 C09"),
+ "C10": (True, "fault_enumeration", "fault enumeration: every failure position x fault kind over 39 container shapes with an instrumented element, ledger + counting allocator, native and AddressSanitizer, plus random multi-fault scripts",
+   "Complete enumeration of (shape x failing element x {input exhausted at every byte, malformed, panic, depth-limit at every limit, mem-limit at every limit}) with a drop ledger and a byte-exact leak detector, repeated under AddressSanitizer in a crash-recovering worker; random multi-fault scripts on top.",
+   "Monitors see only executed scripts; element decoder is part of the harness; N <= 40, nests two deep.", "§6 C10"),
+ "C11": (True, "exploration", "property-based testing: limit sweep 0..=D+2 with transparency/monotonicity/threshold-band oracle; deep inputs on a 2 MiB stack in a crash-recovering worker",
+   "For generated wide/deep values and mutated strings every limit 0..=D_hi+2 is tried against five clauses (transparent, monotone, sufficient at D_hi, necessary below D_hi-1, decode_all variant); inputs nested up to 10^6 levels for five recursive types are decoded on a 2 MiB stack in a worker process whose death is the violation.",
+   "Threshold is a one-level band by design (leaf primitive containers are not counted by the crate); one stack size.", "§6 C11"),
+ "C12": (True, "exploration", "property-based testing: exhaustive limit sweep 0..=U+1 per input with threshold oracle and value-derived lower bound",
+   "For valid and mutated inputs of every DecodeWithMemTracking zoo type every limit 0..=U+1 (U <= 4096; else partial sums of announced allocations and boundaries) is tried: transparent, succeeds above U, fails at or below U when U > 0, both entry points agree, U >= heap payload of the decoded value, U == 0 for heap-free values.",
+   "Payload model states the property's lower bound (half for tree maps/sets).", "§6 C12"),
+ "C13": (True, "exploration", "property-based testing: values biased to longest encodings vs declared max/const/fixed lengths; generated derive(MaxEncodedLen) programs",
+   "Every MaxEncodedLen/ConstEncodedLen zoo type with values maximising the encoded length, every type with a fixed encoded size, and generated derive(MaxEncodedLen) definitions compiled against /repo.",
+   "Model max_len cross-check; generated program space is the grammar in DESIGN §4.3.", "§6 C13"),
+ "C15": (True, "exploration", "stateful property-based testing: append_or_new histories vs model vector; boundary counts with zero-sized items; invalid starts",
+   "Histories of append_or_new calls over item types/forms and targets, with counts placed on every prefix-width boundary (63/64, 2^14, 2^30 and around 2^32 with zero-sized items, batches longer than 2^32), checked after every step against the reference encoding of the whole; invalid count prefixes must be rejected.",
+   "Reference encoder self-tested; 2^30 boundary with real items only in the thorough tier.", "§6 C15"),
+ "C16": (True, "exploration", "property-based testing over a table of declared EncodeLike pairs, each certified by the compiler through a generic bound",
+   "63 rows covering every EncodeLike impl family, values generated from the owner's model type (incl. unsorted/duplicate slices for maps/sets); bytes must equal the reference encoding, decode as the target type to the reference decoder's value, and equal the target's own encoding where canonical.",
+   "The table is hand-maintained; impl headers found in /repo/src are counted in the evidence.", "§6 C16"),
 }
 PENDING = {
 }
